@@ -7,6 +7,7 @@ case index), extra (argv), thorough_only.
 
 ENG = {
     "hhfuzz": {"name": "hhfuzz", "sources": ["hhfuzz.c"]},
+    "poolfuzz": {"name": "poolfuzz", "sources": ["poolfuzz.c"]},
 }
 
 
@@ -42,6 +43,28 @@ PROPS["C02"] = {
                     "default order) accept any tied minimum"],
 }
 
+PROPS["C20"] = {
+    "engines": ENG,
+    "jobs": [
+        J("pool-geom-asan", "poolfuzz", "asan", 0, 300, 20000),
+        J("pool-64chunks-asan", "poolfuzz", "asan", 1, 150, 15000, timeout=120),
+        J("pool-static-asan", "poolfuzz", "asan", 2, 100, 5000),
+        J("pool-geom-rel", "poolfuzz", "rel", 0, 300, 20000),
+        J("pool-64chunks-rel", "poolfuzz", "rel", 1, 150, 15000, timeout=120),
+        J("pool-static-rel", "poolfuzz", "rel", 2, 100, 5000),
+    ],
+    "rule": ("alloc/free histories (ramp to N live, random churn, partial drain, re-ramp, drain) on dynamic pools of object size "
+             "{8..4104} x objects-per-chunk {1,3,64,256,page-exact} with N chosen to cross 1,2,3,63,64,65,66,128,129,130 chunks, and on "
+             "the library's thread-local static tag pools in the main thread and in short-lived threads; shadow map of live objects "
+             "with per-object fill patterns audited on free and at audit points (alignment, overlap, inside-a-chunk, contents); "
+             "distinct = fingerprint of (profile, geometry, chunk target, ramp size); non-trivial = more than one chunk"),
+    "headline": ["allocs", "frees", "audits", "expansions", "max_chunks", "max_live", "chunk_list_growths", "cases_crossing_64_chunks",
+                 "static_pool_main_thread", "static_pool_worker_thread", "pools_destroyed"],
+    "min_observed": {"quick": {"cases_crossing_64_chunks": 50, "chunk_list_growths": 20}, "thorough": {"cases_crossing_64_chunks": 2000}},
+    "assumptions": ["object sizes are multiples of 8 (documented precondition)",
+                    "ASan build: hook H3 poisons objects on the free list, so a touch of a freed object or a doubly handed-out object is an ASan report"],
+}
+
 # --------------------------------------------------------------------------
 # Texts for MANIFEST.json (bin/gen_manifest.py)
 MANIFEST_TEXT = {
@@ -53,6 +76,14 @@ MANIFEST_TEXT = {
                  "unique and non-zero; ASan/UBSan build re-runs a slice of the same corpus."),
         "technique": "runtime monitoring: randomized operation-history differential vs reference model + structural invariant walker, also under ASan/UBSan",
         "design_ref": "DESIGN.md 4/C02",
+    },
+    "C20": {
+        "level": ("Exploration of allocation histories on the real pool code with a shadow map (alignment, disjointness, chunk "
+                  "membership, content stability) under AddressSanitizer with free-list poisoning, across the chunk-list growth "
+                  "points; held on the histories run."),
+        "note": "Trusts the shadow map in poolfuzz.c and ASan+hook H3; population sizes up to ~130 chunks / 600k objects.",
+        "technique": "runtime monitoring: shadow-map oracle over random alloc/free histories + AddressSanitizer with pool poisoning hook",
+        "design_ref": "DESIGN.md 4/C20",
     },
 }
 NOT_APPLICABLE = {}
